@@ -82,7 +82,13 @@ func runC14(rc *RunCtx) {
 	P := 1
 	stranger := nacc - 1
 	var eligible, shared []int
-	s.InitProvider(P, "https://node1.pdomain.example")
+	// the prover's own address sometimes carries an explicit port (so do some of the others): the port is not part of the host
+	pURL := "https://node1.pdomain.example"
+	if rc.Chance(0.4) {
+		pURL = fmt.Sprintf("https://node1.pdomain.example:%d", 3000+rc.Intn(1000))
+		rc.Count("prover_url_with_port", 1)
+	}
+	s.InitProvider(P, pURL)
 	for i := 0; i < npop; i++ {
 		a := 2 + i
 		ip := fmt.Sprintf("https://n%d.dom%d.example", a, a)
@@ -91,6 +97,9 @@ func runC14(rc *RunCtx) {
 		} else if rc.Chance(0.25) {
 			ip = fmt.Sprintf("http://10.%d.%d.%d:3333", rc.Intn(200), a, 1+rc.Intn(250)) // reachable under a bare IPv4 address
 			rc.Count("providers_under_ipv4_literals", 1)
+		}
+		if strings.HasPrefix(ip, "https://") && rc.Chance(0.3) {
+			ip += fmt.Sprintf(":%d", 3000+rc.Intn(1000))
 		}
 		if r := s.InitProvider(a, ip); !r.OK() {
 			rc.Abort("provider: " + r.Log)
@@ -159,6 +168,28 @@ func runC14(rc *RunCtx) {
 			rc.Abort("provider cannot join G: " + pr.ErrMsg)
 			return
 		}
+	}
+	// one or two eligible providers hold a second proof, on a file K of their own: a provider is one candidate however many
+	// proofs it holds
+	if rc.Chance(0.6) {
+		fK := gen.NewFile(randBytes(rc.Rng, int64(1+rc.Intn(3000))), 1024)
+		wK, rK := s.PostFile(0, fK, 3, 0, -1)
+		if !rK.OK() {
+			rc.Abort("post: " + rK.Log)
+			return
+		}
+		nk := 0
+		for _, a := range eligible {
+			if a == noProof || a == vLoses || nk == 2 || rc.Chance(0.3) {
+				continue
+			}
+			if pr := s.ProveHonest(a, wK); !pr.Success {
+				rc.Abort("provider cannot join K: " + pr.ErrMsg)
+				return
+			}
+			nk++
+		}
+		rc.Count("providers_with_two_proofs", nk)
 	}
 	if !nb() || !nb() {
 		return
